@@ -194,7 +194,8 @@ Definition regp_recv (p : regp) (s : src) (alloc_ok : bool) : option recv_result
           else if g_blocksize p - SIZEOF_RPFRAME <? N.of_nat (length octets) then
             Some {| rr_rc := RcOk; rr_errid := Some ENOMEM; rr_frame := None; rr_block_to_caller := true;
                     rr_allocated := true; rr_freed_by_recv := false;
-                    rr_reply := early_response p (firstn 16 octets) R_ERXOVERFLOW; rr_rest := s' |}
+                    rr_reply := early_response p (firstn 16 (firstn (N.to_nat (g_blocksize p - SIZEOF_RPFRAME)) octets)) R_ERXOVERFLOW;
+                    rr_rest := s' |}
           else
             match parse_frame octets with
             | inr f => Some {| rr_rc := RcOk; rr_errid := None; rr_frame := Some f; rr_block_to_caller := true;
@@ -219,37 +220,103 @@ Record verdict := { vd_status : N; vd_addr : N; vd_data : list N (* octets deliv
 Definition tx_room (p : regp) (f : rframe) : N := g_blocksize p - SIZEOF_RPFRAME - f_hlen f.
 Definition trxbufsize (p : regp) : N := g_blocksize p - SIZEOF_RPFRAME.
 
+(* the reply for a backend verdict; None: a status outside the protocol's codes (-EINVAL, nothing is sent) *)
+Definition verdict_reply (p : regp) (f : rframe) (v : verdict) (ackpl : list N) (ackn : N) : option (list N) :=
+  if vd_status v =? R_ACK then Some (resp_ack p f ackpl ackn)
+  else if (vd_status v =? R_ERXOVERFLOW) || (vd_status v =? R_ETXOVERFLOW) then Some (resp_32 p f (vd_status v) (trxbufsize p))
+  else if (R_EUNMAPPED <=? vd_status v) && (vd_status v <=? R_EINVALID) then Some (resp_32 p f (vd_status v) (vd_addr v))
+  else if vd_status v <=? R_EIO then Some (resp_0 p f (vd_status v))
+  else None.
+
 Definition regp_process (p : regp) (r : recv_result) (backend : backend_call -> verdict)
-  : list backend_call * list N :=
+  : list backend_call * option (list N) :=
   match rr_rc r with
-  | RcChannel _ => ([], [])
+  | RcChannel _ => ([], Some [])
   | RcOk =>
       match rr_errid r, rr_frame r with
-      | Some EPROTO, Some f => ([], if is_request f then resp_0 p f R_EPAYLOADCRC else [])
-      | Some EFAULT, Some f => ([], if is_request f then resp_0 p f R_EPAYLOADSIZE else [])
-      | Some _, _ => ([], [])
-      | None, None => ([], [])
+      | Some EPROTO, Some f => ([], Some (if is_request f then resp_0 p f R_EPAYLOADCRC else []))
+      | Some EFAULT, Some f => ([], Some (if is_request f then resp_0 p f R_EPAYLOADSIZE else []))
+      | Some _, _ => ([], Some [])
+      | None, None => ([], Some [])
       | None, Some f =>
-          if negb (is_request f) then ([], []) else
-          if negb (Bool.eqb (has_w16 f) (g_mem16 p)) then ([], resp_0 p f R_EWORDSIZE) else
+          if negb (is_request f) then ([], Some []) else
+          if negb (Bool.eqb (has_w16 f) (g_mem16 p)) then ([], Some (resp_0 p f R_EWORDSIZE)) else
           let unit := if g_mem16 p then 2 else 1 in
           if f_type f =? T_READ_REQ then
             let room := tx_room p f / unit in
-            if room <? f_bsize f then ([], resp_32 p f R_ETXOVERFLOW (trxbufsize p)) else
+            if room <? f_bsize f then ([], Some (resp_32 p f R_ETXOVERFLOW (trxbufsize p))) else
             let call := {| bc_write := false; bc_addr := f_addr f; bc_bsize := f_bsize f; bc_payload := []; bc_room := room |} in
             let v := backend call in
-            ([call],
-             if vd_status v =? R_ACK then resp_ack p f (firstn (N.to_nat (unit * f_bsize f)) (vd_data v)) (f_bsize f)
-             else if (vd_status v =? R_ERXOVERFLOW) || (vd_status v =? R_ETXOVERFLOW) then resp_32 p f (vd_status v) (trxbufsize p)
-             else if (R_EUNMAPPED <=? vd_status v) && (vd_status v <=? R_EINVALID) then resp_32 p f (vd_status v) (vd_addr v)
-             else resp_0 p f (vd_status v))
+            ([call], verdict_reply p f v (firstn (N.to_nat (unit * f_bsize f)) (vd_data v)) (f_bsize f))
           else
             let call := {| bc_write := true; bc_addr := f_addr f; bc_bsize := f_bsize f; bc_payload := f_payload f; bc_room := 0 |} in
             let v := backend call in
-            ([call],
-             if vd_status v =? R_ACK then resp_ack p f [] 0
-             else if (vd_status v =? R_ERXOVERFLOW) || (vd_status v =? R_ETXOVERFLOW) then resp_32 p f (vd_status v) (trxbufsize p)
-             else if (R_EUNMAPPED <=? vd_status v) && (vd_status v <=? R_EINVALID) then resp_32 p f (vd_status v) (vd_addr v)
-             else resp_0 p f (vd_status v))
+            ([call], verdict_reply p f v [] 0)
       end
   end.
+
+(* ---- a serving session: receive, process, release, until the input is used up ---- *)
+Definition gen_data (seed : N) (n : nat) : list N := map (fun j => (seed + 13 * N.of_nat j) mod 256) (seq 0 n).
+Definition backend_of (mem16 : bool) (v : N * N * N) (c : backend_call) : verdict :=
+  let '(st, ad, seed) := v in
+  {| vd_status := st; vd_addr := ad;
+     vd_data := if bc_write c then [] else gen_data seed (N.to_nat ((if mem16 then 2 else 1) * bc_bsize c)) |}.
+
+Record round := { rd_recv : recv_result; rd_calls : list backend_call; rd_prc_ok : bool;
+                  rd_reply : list N (* everything sent in this round *); rd_allocs : N; rd_frees : N }.
+Record sess := { ss_src : src; ss_alloc : list bool; ss_verdicts : list (N * N * N); ss_allocs : N; ss_frees : N }.
+
+Definition serve_round (p : regp) (st : sess) : option (round * sess) :=
+  (* the allocator is asked only when the sink is called, i.e. when at least one octet arrives *)
+  let ok := match ss_alloc st with [] => true | b :: _ => b end in
+  match regp_recv p (ss_src st) ok with
+  | None => None
+  | Some r =>
+      let alloc_called := rr_allocated r || (match rr_errid r with Some EBUSY => true | _ => false end) in
+      let script' := if alloc_called then tl (ss_alloc st) else ss_alloc st in
+      let v := match ss_verdicts st with [] => (0, 0, 0) | v :: _ => v end in
+      let '(calls, reply) := regp_process p r (backend_of (g_mem16 p) v) in
+      let verdicts' := match calls with [] => ss_verdicts st | _ => tl (ss_verdicts st) end in
+      let allocs := ss_allocs st + (if rr_allocated r then 1 else 0) in
+      let frees := ss_frees st + (if rr_freed_by_recv r then 1 else 0) + (if rr_block_to_caller r then 1 else 0) in
+      Some ({| rd_recv := r; rd_calls := calls; rd_prc_ok := match reply with Some _ => true | None => false end;
+               rd_reply := (rr_reply r ++ match reply with Some x => x | None => [] end)%list;
+               rd_allocs := allocs; rd_frees := frees |},
+            {| ss_src := rr_rest r; ss_alloc := script'; ss_verdicts := verdicts'; ss_allocs := allocs; ss_frees := frees |})
+  end.
+
+Fixpoint serve (rounds : nat) (p : regp) (st : sess) : option (list round * sess) :=
+  match rounds with
+  | O => Some ([], st)
+  | S k =>
+      match s_stream (ss_src st) with
+      | [] => Some ([], st)
+      | _ =>
+          match serve_round p st with
+          | None => None
+          | Some (r, st') =>
+              match serve k p st' with
+              | None => None
+              | Some (rs, st'') => Some (r :: rs, st'')
+              end
+          end
+      end
+  end.
+
+(* ---- the emitters, by number (the harness' numbering): 0/1 read request 8/16, 2/3 write request 8/16,
+   4 acknowledge, 10+code error response, 30 meta ---- *)
+Definition mkframe (type seq addr : N) : rframe :=
+  {| f_type := type; f_opts := 0; f_meta := 0; f_seq := seq; f_addr := addr; f_bsize := 0; f_hdcrc := 0; f_plcrc := 0;
+     f_hlen := 12; f_payload := [] |}.
+Definition code_has_payload (code : N) : bool :=
+  (code =? R_ERXOVERFLOW) || (code =? R_ETXOVERFLOW) || ((R_EUNMAPPED <=? code) && (code <=? R_EINVALID)).
+Definition emit (p : regp) (kind ftype fseq addr n val : N) (pl : list N) : list N * regp :=
+  let f := mkframe ftype fseq addr in
+  if kind =? 0 then req_read p false addr n
+  else if kind =? 1 then req_read p true addr n
+  else if kind =? 2 then req_write p false addr n pl
+  else if kind =? 3 then req_write p true addr n pl
+  else if kind =? 4 then (resp_ack p f pl n, p)
+  else if kind =? 30 then (resp_meta p val, p)
+  else let code := kind - 10 in
+       (if code_has_payload code then resp_32 p f code val else resp_0 p f code, p).
